@@ -176,7 +176,18 @@ impl Ranking {
                 St::build_sentinel(lang, &recs, limit)
             };
             let got = st.search(&q);
-            let all = unl.search(&q);
+            // the reference lists: one case in eight computes them on threads of their own, so that the store under
+            // observation and its references do not share the library's per-thread scratch state
+            let apart = cx.rng.chance(1, 8);
+            if apart {
+                cx.count("configurations whose reference stores live on threads of their own");
+            }
+            let all = if apart {
+                let (r2, q2, n2) = (recs.clone(), q.clone(), n);
+                on_new_thread(move || St::build_sentinel(lang, &r2, n2 + 1).search(&q2))
+            } else {
+                unl.search(&q)
+            };
             cx.eval();
             let desc = || json!({"lang": lang, "records": recs, "limit": limit, "query": q});
             if got.len() > limit {
@@ -195,8 +206,12 @@ impl Ranking {
                         continue;
                     }
                 };
-                let solo = St::build_sentinel(lang, &[rec.clone()], 1);
-                let sh = solo.search(&q);
+                let sh = if apart {
+                    let (r2, q2) = (rec.clone(), q.clone());
+                    on_new_thread(move || St::build_sentinel(lang, &[r2], 1).search(&q2))
+                } else {
+                    St::build_sentinel(lang, &[rec.clone()], 1).search(&q)
+                };
                 cx.eval();
                 if sh.len() != 1 || sh[0] != *h {
                     cx.fail("hit-differs-from-solo-store", json!({"case": desc(), "hit": h, "solo_store_result": sh}));
@@ -396,6 +411,10 @@ impl Ranking {
             cx.ctx(format!("C07 lang={} recs={:?} limit={} q={:?}", lang, recs, limit, q));
             let base = st.search(&q);
             let all = unl.search(&q);
+            let apart = cx.rng.chance(1, 8);
+            if apart {
+                cx.count("configurations whose reference stores live on threads of their own");
+            }
             // pairwise: the first three hits plus up to three more positions anywhere in the unlimited list
             let mut pos: Vec<usize> = (0..all.len().min(3)).collect();
             for _ in 0..3 {
@@ -416,8 +435,12 @@ impl Ranking {
                     let rj = recs.iter().find(|r| r.0 == all[j].0).unwrap().clone();
                     for ord in 0..2 {
                         let two = if ord == 0 { vec![ri.clone(), rj.clone()] } else { vec![rj.clone(), ri.clone()] };
-                        let pair = St::build_sentinel(lang, &two, 10);
-                        let h: Vec<usize> = pair.search_ids(&q);
+                        let h: Vec<usize> = if apart {
+                            let (t2, q2) = (two.clone(), q.clone());
+                            on_new_thread(move || St::build_sentinel(lang, &t2, 10).search_ids(&q2))
+                        } else {
+                            St::build_sentinel(lang, &two, 10).search_ids(&q)
+                        };
                         cx.eval();
                         cx.count("pair stores");
                         if h != vec![ri.0, rj.0] {
@@ -835,8 +858,8 @@ impl Prop for Ranking {
     }
     fn floors(&self) -> Vec<(&'static str, u64, u64)> {
         match self.0 {
-            Which::Verdicts => vec![("truncated (more matches than limit)", 200, 2000), ("beyond the 10x cap (soundness only)", 100, 1000), ("limit 0", 50, 500), ("selection buffer refilled (matches >= 2*limit)", 100, 1000), ("store with tied ratings (set comparison)", 50, 500), ("empty query", 50, 500), ("corpus-store searches", 100, 2000), ("corpus-store searches compared with the unlimited corpus store", 10, 200), ("large stores (limit 50-200)", 400, 8000), ("large stores whose match count is an exact multiple of the limit", 20, 400), ("stores of more than 2048 records", 8, 160), ("stores of 66-260 records", 300, 3000), ("stores built in stages with searches and limit changes in between", 3000, 30000)],
-            Which::Order => vec![("pair stores", 2000, 20000), ("permuted stores", 2000, 20000), ("searches with >= 2 hits", 300, 3000), ("truncated lists compared across permutations", 30, 300), ("stores of similar words", 500, 5000), ("pairs involving a hit ranked 7th or lower", 300, 3000), ("large stores (limit 50-200)", 200, 4000), ("stores of more than 2048 records", 4, 80), ("stores with ratings in [2^31, 2^32)", 200, 2000), ("stores with ratings spread over the whole usize range", 100, 1000)],
+            Which::Verdicts => vec![("truncated (more matches than limit)", 200, 2000), ("beyond the 10x cap (soundness only)", 100, 1000), ("limit 0", 50, 500), ("selection buffer refilled (matches >= 2*limit)", 100, 1000), ("store with tied ratings (set comparison)", 50, 500), ("empty query", 50, 500), ("corpus-store searches", 100, 2000), ("corpus-store searches compared with the unlimited corpus store", 10, 200), ("large stores (limit 50-200)", 400, 8000), ("large stores whose match count is an exact multiple of the limit", 20, 400), ("stores of more than 2048 records", 8, 160), ("stores of 66-260 records", 300, 3000), ("stores built in stages with searches and limit changes in between", 3000, 30000), ("configurations whose reference stores live on threads of their own", 1500, 15000)],
+            Which::Order => vec![("pair stores", 2000, 20000), ("permuted stores", 2000, 20000), ("searches with >= 2 hits", 300, 3000), ("truncated lists compared across permutations", 30, 300), ("stores of similar words", 500, 5000), ("pairs involving a hit ranked 7th or lower", 300, 3000), ("large stores (limit 50-200)", 200, 4000), ("stores of more than 2048 records", 4, 80), ("stores with ratings in [2^31, 2^32)", 200, 2000), ("stores with ratings spread over the whole usize range", 100, 1000), ("configurations whose reference stores live on threads of their own", 200, 2000)],
             Which::Rules => vec![("rule exact>typo", 500, 5000), ("rule both>one", 500, 5000), ("rule prefix: exact>tail", 500, 5000), ("rule adjacent>gap", 500, 5000), ("rule first>second", 500, 5000), ("rule identical titles: rating decides", 300, 3000), ("rule equal rating: shorter title first", 300, 3000), ("rule function word: content word first", 1000, 10000), ("u made of two function words run together", 300, 3000), ("rule cases with a third, unrelated record", 20000, 200000), ("identical titles with ratings 1-3 apart", 1000, 10000), ("tails of 13-70 letters", 1000, 10000)],
             Which::Empty => vec![("searches after further adds", 1000, 10000), ("truncated lists with tied ratings", 500, 5000), ("stores with distinct ratings", 500, 5000), ("limit 0", 100, 1000), ("stores of 13-60 records", 1000, 10000), ("stores whose titles share a prefix of 20-40 characters", 1500, 15000), ("stores with adjacent ratings above 2^24", 1000, 10000), ("searches after a limit change", 1000, 10000)],
         }
